@@ -848,12 +848,15 @@ func c12Top(w *mon.W, _ int) {
 				return
 			}
 			w.Tick()
-			w.Op = "ToArray(bitmap of up to 2^31 bits)"
-			back := bitmap.ToArray(got)
-			w.Tick()
-			if !eqI32(back, l) {
-				w.Fail("ToArray(Of(l))!=l/top-of-int32", mon.D{"positions": l, "nwords": len(got), "got": trunc32(back, 12)})
-				return
+			// (ToArray walks all 2^31 bits one by one, about two seconds: quick does it for two of the lists)
+			if variant == 0 && (w.Cfg.Thorough() || li == 0 || li == 4) {
+				w.Op = "ToArray(bitmap of up to 2^31 bits)"
+				back := bitmap.ToArray(got)
+				w.Tick()
+				if !eqI32(back, l) {
+					w.Fail("ToArray(Of(l))!=l/top-of-int32", mon.D{"positions": l, "nwords": len(got), "got": trunc32(back, 12)})
+					return
+				}
 			}
 			w.Eval(2)
 			for _, p := range l {
